@@ -56,6 +56,96 @@ END_SCHEMA;
 """
 
 
+COPIED_TEXT = """SCHEMA copied_text;
+(* a remark before the first declaration *)
+CONSTANT
+  limit : INTEGER := 100;
+END_CONSTANT;
+
+TYPE percentage = REAL;
+WHERE
+  ( 0.0 <= SELF ) AND ( SELF <= 100.0 );
+END_TYPE;
+
+TYPE label = STRING;
+WHERE
+  wr_not_empty : LENGTH( SELF ) > 0;
+END_TYPE;
+
+TYPE kind = ENUMERATION OF (plain, fancy);
+END_TYPE;
+
+ENTITY tank;
+  name     : label;   -- a tail remark
+  capacity : REAL;
+  level    : REAL;
+  fill     : percentage;
+DERIVE
+  free     : REAL := capacity - level;
+  full     : BOOLEAN := fill >= 99.5;
+UNIQUE
+  ur_name  : name;
+  capacity, level;
+WHERE
+  capacity > 0.0;
+  wr_level : ( 0.0 <= level ) AND ( level <= capacity );
+  fill * capacity <= limit * level + 0.5;
+END_ENTITY;
+
+ENTITY pipe
+  SUBTYPE OF (connector);
+  from_tank : tank;
+  to_tank   : tank;
+WHERE
+  from_tank :<>: to_tank;
+END_ENTITY;
+
+ENTITY connector
+  ABSTRACT SUPERTYPE;
+  style : kind;
+WHERE
+  (* an embedded remark inside a WHERE clause *) style IN [plain, fancy];
+END_ENTITY;
+
+FUNCTION headroom( t : tank ) : REAL;
+  LOCAL
+    r : REAL := 0.0;
+  END_LOCAL;
+  (* a remark in a function body *)
+  IF t.capacity > t.level THEN
+    r := t.capacity - t.level;
+  END_IF;
+  RETURN( r );
+END_FUNCTION;
+
+RULE tanks_have_room FOR (tank);
+WHERE
+  SIZEOF( QUERY( t <* tank | headroom( t ) < 0.0 ) ) = 0;
+  wr_named : SIZEOF( QUERY( t <* tank | LENGTH( t.name ) = 0 ) ) = 0;
+END_RULE;
+
+END_SCHEMA;
+"""
+
+SELF_CONTAINING_SELECT = """SCHEMA recursive_values;
+TYPE setting_value = SELECT (simple_value, setting_value_list);
+END_TYPE;
+TYPE setting_value_list = LIST [0:?] OF setting_value;
+END_TYPE;
+TYPE simple_value = SELECT (count_value, text_value);
+END_TYPE;
+TYPE count_value = INTEGER;
+END_TYPE;
+TYPE text_value = STRING;
+END_TYPE;
+ENTITY setting;
+  name : STRING;
+  val  : setting_value;
+END_ENTITY;
+END_SCHEMA;
+"""
+
+
 def non_ascii_strings_schema():
     """string literals with multibyte UTF-8 characters whose byte length / character length straddle the pretty printer's
     line limit (exppp -l, default 130): every character count from 30 to 80 (60..160 bytes), plus mixed ASCII/non-ASCII"""
@@ -111,6 +201,7 @@ def configs(quick, setarch):
 
 
 TOOLS = ["exp2cxx", "exp2python", "exppp", "schema_scanner"]
+MUST_BE_ACCEPTED = {"copied-text", "self-containing-select", "min-nonliteral-bound", "all-bound-shapes-text"}
 
 
 def cfg_dict(c):
@@ -462,6 +553,8 @@ def examine(ctx, b, name, text, exp_src, cfgs, idx, gen_file=None, model_exe=Non
                 break
             if ref is None:
                 ref = (rc, snap, out, cfg)
+                if rc != 0 and name in MUST_BE_ACCEPTED and tool != "schema_scanner":
+                    ctx.broken.append(("fixed input rejected", f"[{name}] {tool} rc={rc}: {err[-300:] if isinstance(err, str) else err}"))
                 if tool == "exp2python" and rc == 0 and model_exe and len(ctx._disagree) < 3:
                     for d in pymodule_predictions(ctx, b, model_exe, exp_abs, snap):
                         ctx._disagree.append((name, d))
@@ -659,6 +752,60 @@ def pymodule_predictions(ctx, b, model_exe, exp_abs, snap):
     return dis
 
 
+def fresh_memory_clauses(ctx, b, name, text, quick):
+    """a value read from memory the program never wrote changes with the heap layout, i.e. from run to run: (1) the SAME command in
+    the SAME configuration (ASLR on, as installed) repeated N times - every run byte-equal to the first; (2) the tools under
+    valgrind: an `uninitialised value` report is the read itself, found without having to hit a differing heap"""
+    root = os.path.join(ctx.work, "fresh-" + re.sub(r"\W+", "_", name))
+    os.makedirs(os.path.join(root, "in"), exist_ok=True)
+    exp = os.path.join(root, "in", "input_schema.exp")
+    open(exp, "w").write(text)
+    n = 10 if quick else 24
+    for tool in ("exp2cxx", "exp2python", "exppp"):
+        if len(ctx.violations) >= 3:
+            break
+        first = None
+        for i in range(n):
+            wd = os.path.join(root, f"{tool}-{i}")
+            os.makedirs(wd)
+            rc = run_in(b, tool, exp, wd)
+            snap = snapshot(wd) if rc == 0 else {}
+            ctx.count(1, key=(name, tool, "repeat", i))
+            shutil.rmtree(wd, ignore_errors=True)
+            if first is None:
+                first = (rc, snap)
+                continue
+            d = None if rc != first[0] else first_diff(first[1], snap)
+            if rc != first[0] or d is not None:
+                what = (f"exit status {first[0]} in run 1 but {rc} in run {i + 1}" if rc != first[0] else
+                        f"{d[0]} {d[1]}: {(d[2] or [b''])[0][:160]!r} in run 1 vs {(d[3] or [b''])[0][:160]!r} in run {i + 1}")
+                ctx.violation(f"{tool}:differs-between-identical-runs",
+                              f"[{name}] {tool} run {n} times on the same file in the same configuration (ASLR as installed) does not always give the same output: {what}",
+                              {"express": text, "tool": tool, "configurations": [cfg_dict(Config("base")), cfg_dict(Config("base"))], "repetitions": n,
+                               "how": f"run the tool {n} times on the file, each time in an empty directory, nothing else changed; compare every run with the first (`diff -r`)"})
+                break
+        ctx.hist("runs", f"{tool}/identical-repeats x{n}")
+        if shutil.which("valgrind") and len(ctx.violations) < 3:
+            wd = os.path.join(root, f"{tool}-vg")
+            os.makedirs(wd)
+            env = {"PATH": "/usr/bin:/bin", "LD_LIBRARY_PATH": b.lib, "LC_ALL": "C", "HOME": HOME_VALUE}
+            try:
+                r = subprocess.run(["valgrind", "--error-exitcode=99", "-q", b.tool(tool), exp], cwd=wd, env=env, capture_output=True, text=True, errors="replace", timeout=300)
+                rc, err = r.returncode, r.stderr
+            except subprocess.TimeoutExpired:
+                rc, err = "timeout", ""
+            ctx.count(1, key=(name, tool, "valgrind"))
+            ctx.hist("runs", f"{tool}/valgrind")
+            if rc == 99:
+                m = re.search(r"==\d+== (Conditional jump or move depends on uninitialised value|Use of uninitialised value|Invalid read|Invalid write|Syscall param [^\n]*uninitialised)[^\n]*(?:\n==\d+==    (?:at|by) [^\n]*){1,4}", err)
+                ctx.violation(f"{tool}:reads-memory-it-never-wrote",
+                              f"[{name}] valgrind reports for {tool}: {(m.group(0) if m else err[:400]).replace(chr(10), ' ')[:600]}",
+                              {"express": text, "tool": tool, "configurations": [cfg_dict(Config("base")), cfg_dict(Config("base"))],
+                               "how": "valgrind --error-exitcode=99 -q <tool> <file> in an empty directory: exit status 99 and the report on stderr"})
+            shutil.rmtree(wd, ignore_errors=True)
+    shutil.rmtree(root, ignore_errors=True)
+
+
 def iteration_clause(ctx, b, model_exe, quick):
     """"DICTdo visits every entry exactly once, in the order the model computes" put to the real libexpress across the
     expansion points of the hash table (first split at 1535 entries, then every 1536; the 256th at 393216 entries): a schema of
@@ -726,7 +873,7 @@ def run(ctx):
     ]
     ctx.cov["partial"].append({"theorem": "C12_bound_legacy_partial / C12_bound_current",
                                "excluded": "under the legacy rule: bounds that are resolved identifiers (constants, attributes, derived attributes) — there the output does depend on an address (C12_bound_legacy_witness)"})
-    ctx.lean("StepModel.Props.C12", exes=["m_c12"], extractors=["genbound", "scanner", "exphash", "refout", "outopen", "cxxcollect"])
+    ctx.lean("StepModel.Props.C12", exes=["m_c12"], extractors=["genbound", "scanner", "exphash", "refout", "outopen", "cxxcollect", "geninit"])
     b = ctx.build("plain")
     model_exe = ctx.model_exe("m_c12")
     if not os.path.exists(model_exe):
@@ -737,7 +884,14 @@ def run(ctx):
     idx = 0
     iteration_clause(ctx, b, model_exe, quick)
     # corpus / fixed inputs first: the confirmed defect (DESIGN §6 row 9) on a minimal schema
-    fixed = [("min-nonliteral-bound", MIN_BOUND), ("all-bound-shapes-text", ALL_BOUNDS), ("non-ascii-strings-near-line-limit", non_ascii_strings_schema())]
+    fixed = [("min-nonliteral-bound", MIN_BOUND), ("all-bound-shapes-text", ALL_BOUNDS), ("non-ascii-strings-near-line-limit", non_ascii_strings_schema()),
+             # every construct whose TEXT is copied into generated code: (un)labelled WHERE rules on types and entities, UNIQUE, DERIVE, function and rule bodies, remarks
+             ("copied-text", COPIED_TEXT)]
+    # selects that contain themselves / each other through aggregate types: TYPEselect_print meets a select that is still being printed
+    cyc = [("self-containing-select", SELF_CONTAINING_SELECT)] + [(f"select-cycle-through-aggregates-{k}", SG.select_cycle_through_aggregates_schema(k).text()) for k in ((2, 3) if quick else (2, 3, 4, 6))]
+    for name, text in cyc + [("copied-text", COPIED_TEXT)]:
+        fresh_memory_clauses(ctx, b, name, text, quick)
+    fixed += cyc
     for p in sorted(glob.glob(os.path.join(VERIF, "corpus", "C12", "*.exp"))):
         fixed.append(("corpus:" + os.path.basename(p), open(p).read()))
     for name, text in fixed:
@@ -814,7 +968,7 @@ def replay(ctx, path):
     r = d.get("replay", d)
     ctx._disagree = []
     ctx._nonterm = []
-    ctx.lean("StepModel.Props.C12", exes=["m_c12"], extractors=["genbound", "scanner", "exphash", "refout", "outopen", "cxxcollect"])
+    ctx.lean("StepModel.Props.C12", exes=["m_c12"], extractors=["genbound", "scanner", "exphash", "refout", "outopen", "cxxcollect", "geninit"])
     b = ctx.build("plain")
     if "alone" in r:
         root = os.path.join(ctx.work, "alone-replay")
